@@ -2,6 +2,7 @@
  * RLIMIT_AS, and report how it ended on fd 3 as one line:
  *   exit=<n|-1> sig=<n|0> timeout=<0|1> maxrss_kb=<n> wall_ms=<n>
  * usage: runner <timeout_ms> <fsize_bytes|-1> <as_mb|-1> <sigpipe: d|i> <status-fd> -- cmd args...
+ * Environment RUNNER_NOFILE=<n>: RLIMIT_NOFILE for the command (descriptor exhaustion).
  * No property logic lives here. */
 #define _GNU_SOURCE
 #include <stdio.h>
@@ -41,6 +42,11 @@ int main(int argc, char **argv) {
     if (asmb >= 0) {
       struct rlimit rl = { (rlim_t)asmb << 20, (rlim_t)asmb << 20 };
       setrlimit(RLIMIT_AS, &rl);
+    }
+    if (getenv("RUNNER_NOFILE")) {
+      long nf = atol(getenv("RUNNER_NOFILE"));
+      struct rlimit rl = { (rlim_t)nf, (rlim_t)nf };
+      setrlimit(RLIMIT_NOFILE, &rl);
     }
     struct rlimit core = {0, 0};
     setrlimit(RLIMIT_CORE, &core);
